@@ -163,8 +163,11 @@ def fam_reduce(x, tier):
             yield ("R", op, x, tuple((n, SIZES[n]) for n in c))
 
 
-def subst_values(name, dom, tier):
-    """The menu of values that may be substituted for input ``name`` of domain ``dom``."""
+def subst_values(name, dom, tier, siblings=None):
+    """The menu of values that may be substituted for input ``name`` of domain ``dom``.
+
+    siblings: the other inputs (name -> domain) of the term substituted into; same-domain siblings are offered as
+    renaming targets (collision / swap / diagonal / chains of renamings)."""
     dtype, shape = dom
     vals = []
     if dtype == "real":
@@ -192,6 +195,9 @@ def subst_values(name, dom, tier):
     vals.append(V("f", n))  # fresh variable
     for o in same:
         vals.append(V(o, n))  # rename onto a (possibly existing) name: collision / swap / diagonal
+    for o, d in (siblings or {}).items():
+        if o != name and o not in same and d == (n, ()):
+            vals.append(V(o, n))
     vals.append(("Slice", "s", 0, n, 1, n))
     if n >= 2:
         vals.append(("Slice", "s", 1, n, 1, n))
